@@ -19,7 +19,8 @@
 (* A lattice point is a diagonal state  w/4 |s1><s1| + (4-w)/4 |s2><s2|    *)
 (* (w = 4: the product state s1) together with a pair of error rates in    *)
 (* quarters.  All probabilities are exact integers: the distribution over  *)
-(* the 2^N bitstrings is printed as numerators over 4^(N+1).               *)
+(* the 2^N bitstrings is printed as numerators over 4^(N+1) (field d), the *)
+(* probability that atom i reads 1 as numerators over 16 (field r).        *)
 (* TLC enumerates every point (one state per point), checks the laws of    *)
 (* the reference and prints the expected distribution; the harness turns   *)
 (* every printed point into tests of QutipResult / QutipState /            *)
@@ -135,6 +136,18 @@ MarginalIsRate ==
        SumOver({o \in Outcomes(N) : o[i] = 1}, LAMBDA o : Num(pt, o))
          = Pow(4, N) * ReadOne(Bits(pt.a, MB)[i], pt.f)
 
+(* ... and for every point (mixtures, leakage level x included) the probability that atom i is READ as 1  *)
+(* is the mixture of the two per-atom rates: Marg(p, i) / 16.  This is the number the expectation value of *)
+(* the diagonal projector "atom i reads 1" must give when detection errors are configured.                 *)
+Marg(p, i) == p.w * ReadOne(Bits(p.a, p.c[2])[i], p.f) + (4 - p.w) * ReadOne(Bits(p.b, p.c[2])[i], p.f)
+MarginalOfMixture ==
+  IsPoint =>
+    \A i \in 1..N :
+       SumOver({o \in Outcomes(N) : o[i] = 1}, LAMBDA o : Num(pt, o)) = Pow(4, N - 1) * Marg(pt, i)
+(* the leakage level never reads 1: an atom in x is read as 1 only through a false positive *)
+LeakageReadsZero ==
+  IsPoint => (\A i \in 1..N : (pt.a[i] = "x" /\ pt.w = 4) => (Marg(pt, i) = 4 * pt.f[1]))
+
 (* certain flips (rates 0 or 1) give a single bitstring for a product state *)
 CertainFlip ==
   (IsPoint /\ pt.w = 4 /\ pt.f[1] \in {0, 4} /\ pt.f[2] \in {0, 4}) =>
@@ -151,5 +164,5 @@ Emit ==
                             i |-> <<Index(pt.a, EB), Index(pt.b, EB)>>,
                             x |-> <<Join([k \in 1..N |-> ToString(Bits(pt.a, MB)[k])], 1),
                                     Join([k \in 1..N |-> ToString(Bits(pt.b, MB)[k])], 1)>>,
-                            d |-> DistSeq(pt)]))
+                            d |-> DistSeq(pt), r |-> [k \in 1..N |-> Marg(pt, k)]]))
 =============================================================================
